@@ -73,5 +73,3 @@ func (e *Env) runHandshake() error {
 	e.Finish()
 	return nil
 }
-
-func (e *Env) runRPC() error { return fmt.Errorf("rpc scenarios: not built yet") }
